@@ -69,6 +69,90 @@ static const char *inf_describe(int c)
 	snprintf(o, 48, "in=%d out=%d", IA_IN[c / NIA_OUT], IA_OUT[c % NIA_OUT]);
 	return o;
 }
+/* next member: at every newly discovered state and every terminal of an inflate graph (FINISH on a valid stream, an error on an invalid one) the SAME state object is
+ * recycled with isal_inflate_reset() - what a reader of concatenated members does - and a second, fixed member in the same wrapper mode
+ * is decoded in one call and in 3-byte input pieces: it must finish with exactly its own output, checksum and input position, whatever
+ * history led to the terminal. The state image is put back afterwards, so the exploration itself is unaffected. */
+static uint8_t nm_x[40];
+static size_t nm_xlen;
+static struct { uint8_t s[96]; size_t len, true_end; int ready; } nm_member[16];
+static void nm_build(int mode)
+{
+	static const struct tok T[] = { { 0, 'n', 0 }, { 0, 'e', 0 }, { 0, 'x', 0 }, { 0, 't', 0 }, { 0, '-', 0 }, { 4, 0, 5 }, { 0, '!', 0 }, { 9, 0, 1 }, { 3, 0, 14 } };
+	uint8_t body[64];
+	struct bw w;
+	bw_init(&w, body, sizeof body);
+	gen_fixed(&w, 1, T, 9);
+	nm_xlen = 0;
+	for (int i = 0; i < 9; i++) {
+		if (!T[i].len)
+			nm_x[nm_xlen++] = (uint8_t)T[i].lit;
+		else
+			for (int j = 0; j < T[i].len; j++, nm_xlen++)
+				nm_x[nm_xlen] = nm_x[nm_xlen - T[i].dist];
+	}
+	nm_member[mode].len = wrap_stream(mode, body, bw_bytes(&w), w.bit, nm_x, nm_xlen, NULL, nm_member[mode].s, &nm_member[mode].true_end);
+	nm_member[mode].ready = 1;
+}
+static int inf_next_member(const char *key, const struct ex_model *m)
+{
+	static uint8_t *img;
+	int mode = ICRC, bad = 0;
+	if (mode < 0 || mode >= 16)
+		return 0;
+	if (!nm_member[mode].ready)
+		nm_build(mode);
+	if (!img)
+		img = malloc(sizeof *IST + sizeof ICUR);
+	inf_save(img);
+	for (int pieces = 0; pieces < 2 && !bad; pieces++) {
+		inf_restore(img);
+		size_t len = nm_member[mode].len, off = 0, produced = 0;
+		uint8_t *out = g_alloc(nm_xlen + 8, G_END);
+		int ret = 0, calls = 0;
+		if (V_TRY()) {
+			isal_inflate_reset(IST);
+			IST->next_out = out;
+			IST->avail_out = (uint32_t)nm_xlen + 8;
+			while (off < len && calls++ < 64) {
+				size_t k = pieces ? (len - off < 3 ? len - off : 3) : len;
+				uint8_t *in = g_alloc(k, G_END);
+				memcpy(in, nm_member[mode].s + off, k);
+				IST->next_in = in;
+				IST->avail_in = (uint32_t)k;
+				ret = isal_inflate(IST);
+				off += k - IST->avail_in;
+				if (ret != ISAL_DECOMP_OK || IST->block_state == ISAL_BLOCK_FINISH || IST->avail_in)
+					break;
+			}
+			produced = nm_xlen + 8 - IST->avail_out;
+			V_END();
+		} else {
+			v_violation(key, "next member after isal_inflate_reset: fault %s; first member's schedule [%s]", v_fault_desc(), m ? ex_path_str(m) : "");
+			bad = 1;
+			break;
+		}
+		size_t pos = off - (IST->read_in_length > 0 ? IST->read_in_length / 8 : 0);
+		int gz = mode == ISAL_GZIP || mode == ISAL_GZIP_NO_HDR || mode == ISAL_GZIP_NO_HDR_VER;
+		uint32_t want = mode == ISAL_DEFLATE ? 0 : gz ? ri_crc32(0, nm_x, nm_xlen) : ri_adler32(1, nm_x, nm_xlen);
+		if (ret != ISAL_DECOMP_OK || IST->block_state != ISAL_BLOCK_FINISH || produced != nm_xlen || memcmp(out, nm_x, nm_xlen) || pos != nm_member[mode].true_end || (mode != ISAL_DEFLATE && IST->crc != want) ||
+		    IST->total_out != nm_xlen) {
+			v_violation(key, "next member (%s) after isal_inflate_reset on the same state: return %d, block_state %d, %zu of %zu bytes%s, input position %zu (member ends at %zu), crc %08x (want %08x), total_out %u; first member's schedule [%s]",
+				    pieces ? "3-byte pieces" : "one call", ret, IST->block_state, produced, nm_xlen, produced == nm_xlen && memcmp(out, nm_x, nm_xlen) ? " (wrong bytes)" : "", pos, nm_member[mode].true_end, IST->crc, want,
+				    IST->total_out, m ? ex_path_str(m) : "");
+			bad = 1;
+		}
+		if (!bad && g_check()) {
+			v_violation(key, "next member: %s", g_last_damage());
+			bad = 1;
+		}
+		g_reset();
+		v_count("next_member_decodes", 1);
+	}
+	g_reset();
+	inf_restore(img);
+	return bad;
+}
 /* one real isal_inflate call offering ci input bytes and co output bytes (-1 = everything / ample) */
 static int inf_call(int ci, int co, const struct ex_model *m)
 {
@@ -131,6 +215,10 @@ static int inf_call(int ci, int co, const struct ex_model *m)
 	if (I_INVALID) {
 		if (ret < 0 || ret == ISAL_NEED_DICT) {
 			v_outcome(v_mix(0xbad, (uint64_t)(int64_t)ret));
+			if (inf_next_member(key, m)) {
+				nfail++;
+				return EX_VIOLATION;
+			}
 			return EX_TERMINAL;
 		}
 		return EX_NEXT;
@@ -152,6 +240,10 @@ static int inf_call(int ci, int co, const struct ex_model *m)
 			}
 		}
 		v_outcome(v_mix(IST->crc, ICUR.out_off));
+		if (inf_next_member(key, m)) {
+			nfail += !ICUR.tainted;
+			return EX_VIOLATION;
+		}
 		return EX_TERMINAL;
 	}
 	return EX_NEXT;
@@ -200,6 +292,11 @@ static void inf_on_state(int depth)
 	inf_finish_generously(&inf_model, 6);
 	inf_restore(inf_tmpimg);
 	v_count("progress_checks", 1);
+	/* abandoning the stream HERE (a reader that seeks away, or gives up on a member) and recycling the state object must work from every state */
+	char key[600];
+	snprintf(key, sizeof key, "inflate %s", ctxdesc);
+	if (inf_next_member(key, &inf_model))
+		nfail++;
 }
 static const struct ex_model inf_model = { sizeof(struct inflate_state) + sizeof ICUR, inf_save, inf_restore, inf_key, NIA_IN *NIA_OUT, inf_step, inf_on_state, inf_describe, NULL };
 
